@@ -181,6 +181,20 @@ int main(int argc, char **argv) {
     { std::set<std::pair<int, int>> pp; worker(0, 0, 0, seed, 2, &pp); for (auto &p: pp) pred_pairs.insert(p); }
     };
     if (detached) { std::thread k(setup); k.join(); thread_creations++; } else setup();
+    // long runs: the same evaluations repeated far more often than any 8- or 16-bit counter, cache index or pool slot can
+    // count, on one thread, every result compared with the reference (call number K must behave like call number 1)
+    if (int K = args.i("longrun", 0)) {
+        std::vector<int> cheap; for (size_t i = 0; i < jobs.size(); i++) if (jobs[i].key == 1 && (jobs[i].kind == J_GATE || jobs[i].kind == J_BOOT_WOKS_FFT || jobs[i].kind == J_EXTPROD_FFT || jobs[i].kind == J_KEYSWITCH)) cheap.push_back((int) i);
+        for (size_t i = 0; i < jobs.size(); i++) if (jobs[i].kind == J_FFTMUL) cheap.push_back((int) i);
+        std::vector<uint8_t> ob; uint64_t bad = 0; int first_bad = -1;
+        for (int it = 0; it < K; it++) for (int ji: cheap) {
+            if (jobs[ji].kind == J_GATE && jobs[ji].gate == G_MUX && (it & 3)) continue;
+            VH_OP("longrun:%s:call=%d", jobs[ji].name().c_str(), it);
+            run_job(jobs[ji], ob); comparisons++;
+            if (ob != jobs[ji].ref) { bad++; mismatches++; if (first_bad < 0) { first_bad = it; mism.push_back({jobs[ji].name(), "long run: call number " + std::to_string(it), 1, 0, 0, 0}); } }
+        }
+        char cell[96]; snprintf(cell, sizeof cell, "%s:longrun:%d-calls-per-entry-point", cfg.c_str(), K); out.cell(cell, (uint64_t) K * cheap.size());
+    }
     std::atomic<bool> idle_stop{false}; std::vector<std::thread> idlers;
     if (detached) for (int i = 0; i < 2; i++) { idlers.emplace_back([&] { while (!idle_stop.load()) usleep(2000); }); thread_creations++; }
     for (int T: Ts) {
